@@ -71,7 +71,7 @@ def anchors(a: Anchors):
     a.fact("image_flat_mask_multiplies", PC, "PcaClassifier._image_flat", "mask=True -> self._image * self._mask",
            lambda fn: (lambda t: "ifmask:_input=self._image*self._maskelse:_input=self._image" in t)(norm(ast.unparse(fn))))
     a.fact("transform_method_masks", PC, "PcaClassifier.transform", "mask=True default; input * self._mask; pca.transform(flat)",
-           lambda fn: (lambda t: "ifmask:input=input*self._mask" in t and "returnself._pca.transform(flat).compute()" in t
+           lambda fn: (lambda t: t.count("if") == 1 and "ifmask:input=input*self._maskflat=input.reshape(input.shape[0],-1)returnself._pca.transform(flat).compute()" in t
                        and [ast.unparse(d) for d in fn.args.defaults] == ["True"])(norm(ast.unparse(fn))))
     a.fact("classify_appends_label_column", LB, "LoaderBase.classify", "mole = molecules.copy(); features.with_columns(Series(label_name, labels)); replace",
            lambda fn: all(x in norm(ast.unparse(fn)) for x in ["mole=self.molecules.copy()", "mole.features=mole.features.with_columns(pl.Series(label_name,clf._labels))",
@@ -180,6 +180,15 @@ def corr_data_path(ck, rng):
         comps = np.asarray(clf.pca.components_, dtype=np.float64)
         sv = np.asarray(clf.pca.singular_values_, dtype=np.float64)
         proj = np.asarray(clf.get_transform(), dtype=np.float64)
+        # transform() of the training images, given as numpy or dask arrays, is the projection used for clustering; predict() gives run()'s labels
+        ck.oracle_count("transform_of_training_images", 1, 1)
+        tn, td = np.asarray(clf.transform(X)), np.asarray(clf.transform(da.from_array(X, chunks=(2,) + shape)))
+        pl_ = np.asarray(clf.predict(da.from_array(X)))
+        tol_ = 1e-6 * (1 + np.abs(proj).max())
+        if np.abs(tn - proj).max() > tol_ or np.abs(td - proj).max() > tol_ or not np.array_equal(pl_, np.asarray(clf.labels)):
+            ck.violation(what=f"PcaClassifier.transform/predict of the training images differ from get_transform()/labels: numpy input off by {np.abs(tn - proj).max():.3g}, "
+                              f"dask input off by {np.abs(td - proj).max():.3g}", inp={"N": N, "shape": list(shape), "mask": ["none", "binary", "soft"][mk]},
+                         key={"site": "pca-transform", "mask": ["none", "binary", "soft"][mk]}, oracle="transform_of_training_images")
         m_ = np.ones(F) if mask is None else mask.ravel()
         q = lambda v: ql(Fraction(float(v)).limit_denominator(10 ** 12))
         term = (f"(check_pca {lst([q(v) for v in m_])} {lst([lst([q(v) for v in row.ravel()]) for row in X])} {natl(F)} {lst([q(v) for v in mean])} "
@@ -214,6 +223,7 @@ def oracle_labels(ck, rng):
         def __init__(self, image_stack, mask_image=None, n_components=2, n_clusters=2, seed=0):
             seen["shape"] = image_stack.shape
             seen["chunks"] = image_stack.chunks
+            seen["args"] = (n_components, n_clusters, seed)
             self._n = image_stack.shape[0]
 
         def run(self):
@@ -234,7 +244,12 @@ def oracle_labels(ck, rng):
             script = [int(x) for x in rng.integers(0, 3, size=nm)]
             seen["script"] = script
             before = (ld.molecules.pos.copy(), ld.molecules.rotator.as_quat().copy(), ld.molecules.features.clone())
-            res = ld.classify(mask=None, n_components=2, n_clusters=3, label_name="cls")
+            ncomp, nclus, sd = int(rng.integers(1, 5)), int(rng.integers(2, 6)), int(rng.integers(0, 50))
+            res = ld.classify(mask=None, n_components=ncomp, n_clusters=nclus, seed=sd, label_name="cls")
+            if seen.get("args") != (ncomp, nclus, sd):
+                ck.violation(what=f"loader.classify(n_components={ncomp}, n_clusters={nclus}, seed={sd}) built the classifier with "
+                                  f"(n_components, n_clusters, seed) = {seen.get('args')}", inp={"n_components": ncomp, "n_clusters": nclus, "seed": sd},
+                             key={"site": "classify-arguments"}, oracle="labels_follow_molecules")
             new = res.loader.molecules
             fails = []
             if new.features["cls"].to_list() != script: fails.append("labels not in molecule order")
